@@ -30,6 +30,12 @@ CHECKS = {
         "below-minimum vects with all pointers inaccessible must return non-zero without a fault.",
    note="Trusted: TLC's evaluation of Raid.tla; harness h_raid.c; documented alignment/length preconditions respected.",
    technique="TLA+ spec evaluated by TLC as oracle generator + spec-level recovery lemma; vectors and corruption sweeps replayed into every variant"),
+ "C16": dict(cat="exploration", ref="DESIGN.md §3 C16",
+   text="Exhaustive over the dependency-closed CPU configuration space defined in spec/Dispatch.tla (19,440 configurations x all 42 entry points): TLC enumerates the configurations and the register images; the repository's real resolvers, "
+        "re-assembled unmodified from the working tree with CPUID/XGETBV intercepted, are executed for every pair; the ISA requirement set of each selected implementation is computed from its machine code (transitively); "
+        "TLC validates Req subseteq Avail and XGETBV=>OSXSAVE for every pair, and reports drift between the transcribed resolver macros and the real choice (currently 0 of 816,480). 'All choices agree' is decided by C01-C04, C08, C13, C20 which execute every variant.",
+   note="Trusted: closure rules R1-R13 (what counts as an architecturally consistent CPU); the mnemonic/encoding classifier (lib/isa_classify.py); TLC.",
+   technique="TLC enumeration of the TLA+ configuration space; trace validation of the real resolvers' selections against Dispatch!Avail"),
  "C20": dict(cat="exploration", ref="DESIGN.md §3 C20",
    text="Exhaustive sweep over (variant, len 0..N, alignment, position of a single non-zero byte, guard-page placement) of the zero-detect routine; aggregates per (variant, len) are judged by TLC against spec/MemZero.tla.",
    note="Trusted: aggregation in h_mem.c; TLC.", technique="exhaustive enumeration of the implementation input space within N, judged by TLC against the TLA+ definition"),
